@@ -184,16 +184,34 @@ ByMagic(magic) == IF magic = "ML10Library" THEN 1 ELSE 2
 Memo(h)        == Dev("VersionMemoisedPerPath") /\ h # "f"
 CodecFor(h, magic) == IF Memo(h) /\ seen # 0 THEN seen
                       ELSE IF Dev("MagicIgnored") \/ (Dev("MagicIgnoredByReader") /\ h = "r") THEN 2 ELSE ByMagic(magic)
-OpenLib(h, kind) ==
-  LET a == [act |-> "open", h |-> h, kind |-> kind] IN
+(* ow: the constructor's overwrite=True (writer only, and only while no other library object is alive on the  *)
+(* path -- re-creating a file under a live object is outside the claim, as in C02): an existing file is         *)
+(* re-created EMPTY as a current (v2) library, so the codec of the new object is that of the NEW file.         *)
+(* Deviation "OverwriteKeepsOldVersion" (pinned tree): the magic is sniffed before the file is re-created, a    *)
+(* legacy file overwritten this way is then filled with v1 records although it announces v2.                   *)
+OpenLib(h, kind, ow) ==
+  LET a == [act |-> "open", h |-> h, kind |-> kind, ow |-> ow]
+      recreate == ow /\ file.exists
+      nf == IF file.exists /\ ~ow THEN file ELSE [exists |-> TRUE, magic |-> "ML10UKV01", kind |-> kind, recs |-> NoRecs]
+  IN
   /\ ~hs[h].made
+  /\ ow => (h = "w" /\ \A g \in Handles : ~hs[g].made)
   /\ file.exists => file.kind = kind                 \* scope: a MoleculeLibrary on a .clib is outside the claim
   /\ seen' = IF Memo(h) /\ seen = 0 THEN ByMagic(file.magic) ELSE seen       \* the look happens before anything is created
   /\ IF ~file.exists /\ h # "w"
        THEN UNCHANGED <<file, hs, written, cache>> /\ Note(a, "FileNotFoundError")
-       ELSE /\ file' = IF file.exists THEN file ELSE [exists |-> TRUE, magic |-> "ML10UKV01", kind |-> kind, recs |-> NoRecs]
-            /\ hs' = [hs EXCEPT ![h] = [made |-> TRUE, codec |-> CodecFor(h, file.magic)]]
-            /\ UNCHANGED <<written, cache>> /\ Note(a, "ok")
+       ELSE /\ file' = nf
+            /\ hs' = [hs EXCEPT ![h] = [made |-> TRUE,
+                                         codec |-> CodecFor(h, IF recreate /\ ~Dev("OverwriteKeepsOldVersion") THEN nf.magic ELSE file.magic)]]
+            /\ written' = IF recreate THEN NoRecs ELSE written
+            /\ UNCHANGED cache /\ Note(a, "ok")
+
+(* the library objects of this process are dropped (end of a job); the file stays as it is *)
+Forget ==
+  /\ \E h \in Handles : hs[h].made
+  /\ hs' = [h \in Handles |-> [made |-> FALSE, codec |-> 0]]
+  /\ cache' = [h \in Handles |-> NoRecs]
+  /\ UNCHANGED <<file, written, seen>> /\ Note([act |-> "forget"], "ok")
 
 (* the library file is removed (its library objects are dropped with it); whatever is created at the same path  *)
 (* afterwards -- a legacy file, or a new library -- is a new file                                             *)
@@ -243,7 +261,8 @@ Scribble(h, k) ==
 
 Next == \/ \E kind \in Kinds : MakeLegacy(kind)
         \/ \E k \in Keys, x \in Pool : LegacyPut(k, x)
-        \/ \E h \in Handles, kind \in Kinds : OpenLib(h, kind)
+        \/ \E h \in Handles, kind \in Kinds, ow \in BOOLEAN : OpenLib(h, kind, ow)
+        \/ Forget
         \/ \E k \in Keys, x \in Pool : Put(k, x)
         \/ \E h \in Handles, k \in Keys : Get(h, k)
         \/ \E h \in Handles, k \in Keys : Scribble(h, k)
